@@ -71,7 +71,7 @@ namespace
   template<int n>
   struct Fam
   {
-    LD L[n][n], U[n][n], A[n][n], Ai[n][n];
+    LD L[n][n], U[n][n], A[n][n], Ai[n][n], A0[n][n]; // A0: the unscaled matrix (pivot search replay)
     int perm[n];
     LD det;
     // lmask: bits of the strictly lower entries of L, umask: strictly upper entries of U, dvar: diagonal variant
@@ -90,7 +90,7 @@ namespace
       // A = P * (L*U): row i of A is row perm[i] of L*U
       LD LU[n][n];
       for(int i = 0; i < n; ++i) for(int j = 0; j < n; ++j) { LD s = 0; for(int k = 0; k < n; ++k) s += L[i][k] * U[k][j]; LU[i][j] = s; }
-      for(int i = 0; i < n; ++i) for(int j = 0; j < n; ++j) A[i][j] = LU[perm[i]][j];
+      for(int i = 0; i < n; ++i) for(int j = 0; j < n; ++j) A0[i][j] = A[i][j] = LU[perm[i]][j];
       // exact inverse: (LU)^-1 by substitution (divisions by +-2^k only), then column permutation
       LD Li[n][n], Ui[n][n], LUi[n][n];
       for(int c = 0; c < n; ++c)
@@ -123,12 +123,20 @@ namespace
       for(int dvar = 0; dvar < (n <= 3 ? 4 : 2); ++dvar)
       for(unsigned lm = 0; lm < (1u << ntri); ++lm)
       for(unsigned um = 0; um < (1u << ntri); ++um)
+      for(int sc = 0; sc < 3; ++sc)
       {
         if(!c.want()) continue;
         Fam<n> f; f.build(lm, um, dvar, p);
-        c.desc([&]{ std::string s = "n=" + std::to_string(n) + " perm="; for(int i = 0; i < n; ++i) s += char('0' + p[i]); return s + " Lmask=" + std::to_string(lm) + " Umask=" + std::to_string(um) + " dvar=" + std::to_string(dvar) + " " + f.str(); });
+        // magnitude alphabet: A scaled by exactly 1, 2^+100, 2^-100 (inverse and determinant scale exactly; no overflow up to n = 4)
+        const int e2 = (sc == 0) ? 0 : (sc == 1 ? 100 : -100);
+        if(e2 != 0)
+        {
+          for(int i = 0; i < n; ++i) for(int j = 0; j < n; ++j) { f.A[i][j] = std::ldexp(f.A[i][j], e2); f.Ai[i][j] = std::ldexp(f.Ai[i][j], -e2); }
+          f.det = std::ldexp(f.det, e2 * n);
+        }
+        c.desc([&]{ std::string s = "n=" + std::to_string(n) + " perm="; for(int i = 0; i < n; ++i) s += char('0' + p[i]); return s + " Lmask=" + std::to_string(lm) + " Umask=" + std::to_string(um) + " dvar=" + std::to_string(dvar) + " scale=2^" + std::to_string(e2) + " " + f.str(); });
         bool ident = true; for(int i = 0; i < n; ++i) if(p[i] != i) ident = false;
-        if(!(ident && lm == 0 && um == 0)) c.nontrivial(verif::Hash().pod(n).pod(lm).pod(um).pod(dvar).bytes(p, sizeof p).get());
+        if(!(ident && lm == 0 && um == 0)) c.nontrivial(verif::Hash().pod(n).pod(lm).pod(um).pod(dvar).pod(sc).bytes(p, sizeof p).get());
 
         // ---- Tiny::Matrix::set_inverse (hard-coded cofactor formulas for n <= 6)
         {
@@ -168,7 +176,7 @@ namespace
             c.count("invert_matrix_regular_rejected");
             // (a tie between equally large diagonal candidates may be broken differently by rounding, so a rejection can occur
             //  although the exact-arithmetic pivot order would have succeeded: counted, not a violation)
-            if(!diagonal_pivoting_breaks_down<n>(f.A)) c.count("invert_matrix_rejected_after_rounding_broke_a_pivot_tie");
+            if(!diagonal_pivoting_breaks_down<n>(f.A0)) c.count("invert_matrix_rejected_after_rounding_broke_a_pivot_tie");
             bool ident_perm = true; for(int i = 0; i < n; ++i) if(f.perm[i] != i) ident_perm = false;
             // for P = I all leading principal minors are non-zero, so diagonal pivoting cannot break down... unless the
             // pivot *choice* (largest diagonal entry) runs into a zero Schur complement; only the unpivoted order is guaranteed.
@@ -176,12 +184,13 @@ namespace
             continue;
           }
           bool eq = true, pad = true;
+          double amax = 0.0; for(int i = 0; i < n; ++i) for(int j = 0; j < n; ++j) amax = std::max(amax, std::fabs(double(f.Ai[i][j])));
           for(int i = 0; i < n; ++i) for(int j = 0; j < stride; ++j)
           {
-            if(j < n) { if(std::fabs(a[i * stride + j] - double(f.Ai[i][j])) > 1e-10 * std::max(1.0, std::fabs(double(f.Ai[i][j])))) eq = false; }
+            if(j < n) { if(std::fabs(a[i * stride + j] - double(f.Ai[i][j])) > 1e-10 * amax) eq = false; }
             else if(a[i * stride + j] != -777.0) pad = false;
           }
-          if(!eq && diagonal_pivoting_breaks_down<n>(f.A))
+          if(!eq && diagonal_pivoting_breaks_down<n>(f.A0))
             chk(c, false, "inverse.invert_matrix diagonal-only pivot search runs out of non-zero diagonal pivots on a regular matrix, takes a rounding residue as pivot and returns a normal determinant with a wrong inverse n=" + std::to_string(n),
               [&]{ return f.str(); });
           else
@@ -204,7 +213,7 @@ int main(int argc, char** argv)
   spec.rule = "case = (n, permutation P, sparsity pattern of unit-lower L, pattern of upper U, diagonal variant); A = P*L*U with position coded dyadic entries; "
     "non-trivial unless A is diagonal with P = I. Tiny::Matrix::set_inverse/det compared bitwise with the exact inverse/determinant; Math::invert_matrix (stride n and n+1) "
     "compared within 1e-10 (diagonal pivoting admits small pivots, i.e. moderate error growth) whenever it reports a normal determinant";
-  spec.bounds_quick = "n = 1,2,3 complete (all P, all 2^(n(n-1)) patterns, 4 diagonal variants); n = 4: all 24 P, all 4096 patterns, 2 diagonal variants";
+  spec.bounds_quick = "n = 1,2,3 complete (all P, all 2^(n(n-1)) patterns, 4 diagonal variants); n = 4: all 24 P, all 4096 patterns, 2 diagonal variants; every matrix also scaled by 2^+100 and 2^-100";
   spec.bounds_thorough = "same (the space is complete at these sizes)";
   spec.assumptions = {"exact inverse = U^-1 L^-1 P^T by substitution in long double (all divisions by +-2^k, every intermediate exactly representable)",
     "Math::invert_matrix documents that a non-normal returned determinant means failure; it pivots on diagonal entries only, so regular matrices with "
